@@ -1,5 +1,6 @@
 // Scenario runner. Included by a generated TU after the states are defined.
 #pragma once
+#include <type_traits>
 
 namespace vh {
 
@@ -113,7 +114,9 @@ struct Runner {
 
 	void snap(int k) {
 		Instance& m = inst(k);
-		Out& o = out();
+		// the line is assembled locally and emitted at the end, so that a library assertion firing inside
+		// a query cannot tear it
+		std::string o;
 		uint64_t a = 0, r = 0;
 		std::string subs;
 		for (int i = 0; i < STATE_COUNT; ++i) {
@@ -123,23 +126,24 @@ struct Runner {
 			if (i) subs += ",";
 			subs += (sub == hfsm2::INVALID_PRONG ? std::string("-") : std::to_string(static_cast<int>(sub)));
 		}
-		o << "snap " << k << " A=" << hex(a) << " R=" << hex(r) << " S=" << subs;
-		// request queue through a silent probing query (only an active instance can be queried)
-		if (active(m)) {
-			Probe p;
-#if VH_LOG
-			logger.muted = true;
-#endif
-			enterCall(k);
-			m.query(p);
-#if VH_LOG
-			logger.muted = false;
-#endif
-			o << " Q=" << (p.done ? p.queue : std::string("?"));
-		} else
-			o << " Q=?";
+		o += "snap " + std::to_string(k) + " A=" + hex(a) + " R=" + hex(r) + " S=" + subs;
+		const auto& core = m.verifCore();		// HFSM2_VERIF hook (root_0.hpp)
+		o += " Q=" + transitionList(core.requests);
+		// request marks: compoRequested per composite region (pre-order), compoRemains, orthoRequested per
+		// orthogonal region — all must be clear between operations
+		{
+			std::string rq;
+			uint64_t rm = 0;
+			for (unsigned c = 0; c < static_cast<unsigned>(FSM::COMPO_COUNT); ++c) {
+				const auto q = core.registry.compoRequested[c];
+				if (c) rq += ",";
+				rq += (q == hfsm2::INVALID_PRONG ? std::string("-") : std::to_string(static_cast<int>(q)));
+				if (core.registry.compoRemains.get(c)) rm |= 1ull << c;
+			}
+			o += " RQ=" + rq + " RM=" + hex(rm) + " OB=" + orthoBits(core.registry);
+		}
 #if VH_HISTORY
-		o << " P=" << transitionList(m.previousTransitions());
+		o += " P=" + transitionList(m.previousTransitions());
 		{
 			std::string l;
 			for (int i = 0; i < STATE_COUNT; ++i) {
@@ -150,7 +154,7 @@ struct Runner {
 				else
 					l += "-";
 			}
-			o << " L=" << l;
+			o += " L=" + l;
 		}
 #endif
 #if VH_PLANS
@@ -172,7 +176,15 @@ struct Runner {
 #endif
 				}
 			}
-			o << " PL=" << pl;
+			o += " PL=" + pl;
+			uint64_t px = 0, ts = 0, tf = 0;
+			for (int rid = 0; rid < REGION_COUNT; ++rid)
+				if (core.planData.planExists.get(static_cast<hfsm2::RegionID>(rid))) px |= 1ull << rid;
+			for (int i = 0; i < STATE_COUNT; ++i) {
+				if (core.planData.tasksSuccesses.get(static_cast<StateID>(i))) ts |= 1ull << i;
+				if (core.planData.tasksFailures .get(static_cast<StateID>(i))) tf |= 1ull << i;
+			}
+			o += " PX=" + hex(px) + " TS=" + hex(ts) + " TF=" + hex(tf);
 		}
 #endif
 #if VH_STRUCT
@@ -186,10 +198,30 @@ struct Runner {
 				if (i) h += ",";
 				h += std::to_string(static_cast<int>(history[i]));
 			}
-			o << " ST=" << hex(st) << " H=" << h;
+			o += " ST=" + hex(st) + " H=" + h;
 		}
 #endif
-		o << "\n";
+		out() << o << "\n";
+	}
+
+	template <typename TRegistry>
+	static std::string orthoBitsImpl(const TRegistry& registry, std::true_type) {
+		// one hex byte per orthogonal unit, unit 0 first
+		std::string s;
+		const auto& bits = registry.orthoRequested;
+		for (unsigned i = 0; i < static_cast<unsigned>(FSM::ORTHO_UNITS) * 8; i += 8) {
+			unsigned byte = 0;
+			for (unsigned b = 0; b < 8; ++b)
+				if (bits.get(i + b)) byte |= 1u << b;
+			char buf[8]; snprintf(buf, sizeof buf, "%02x", byte); s += buf;
+		}
+		return s;
+	}
+	template <typename TRegistry>
+	static std::string orthoBitsImpl(const TRegistry&, std::false_type) { return "-"; }	// no orthogonal regions
+	template <typename TRegistry>
+	static std::string orthoBits(const TRegistry& registry) {
+		return orthoBitsImpl(registry, std::integral_constant<bool, (FSM::ORTHO_UNITS > 0)>{});
 	}
 
 	//--------------------------------------------------------------------------
